@@ -28,6 +28,10 @@ def run_case(ctx, rng):
     root = ctx.mkdtemp()
     files = gen.rand_tree(rng, max_files=rng.choice([1, 3, 6, 9]), max_depth=rng.choice([0, 2, 4]))
     ws = os.path.join(root, "src")
+    if rng.random() < 0.12:
+        # the tree contains a replica of its own absolute location below a directory (cp --parents backups do that): the
+        # relative key must come from slicing off the leading prefix only
+        files[("backup",) + tuple(p for p in ws.split(os.sep) if p) + ("inner", "replica.txt")] = b"replica"
     gen.materialize(ws, files, rng)
     local = rng.random() < 0.5
     link = rng.choice(["copy", "hardlink", "symlink"])
